@@ -365,7 +365,31 @@ def run_metadata(shard):
                 elif where != 'title' and dict(b.meta) != exp_meta:
                     bad('metadata %s differs after write/read' % where, case=case, got=dict(b.meta), expected=exp_meta)
                 acc.outcomes[(fmt, where)] += 1
-    acc.sample({'strings': 'all of length <=3 over %r' % alpha, 'places': ['value', 'key', 'title']})
+    # values made of lines that look like connection-table keywords, between two other items (added after seed C11-h2):
+    # the structure/metadata boundary of a record is the FIRST 'M  END', whatever the values contain
+    kw = ['M  END', 'v', 'M  END x', 'M  V30 END CTAB']
+    for fmt in ('SDF', 'ESDF', 'RDF', 'MRV'):
+        for L in (1, 2):
+            for ls in itertools.product(kw, repeat=L):
+                acc.states += 1
+                acc.transitions += 2
+                mm = m0.copy()
+                mm.meta['j'] = 'w'
+                mm.meta['k'] = '\n'.join(ls)
+                mm.meta['l'] = 'x'
+                exp_meta = {'j': 'w', 'k': norm_meta('\n'.join(ls)), 'l': 'x'}
+                case = 'keyword value %r | %s' % ('\n'.join(ls), fmt)
+                try:
+                    back = read_records(fmt, write_records(fmt, [mm]))
+                except Exception as e:
+                    acc.fail('value with keyword-looking lines: write/read raised %s :: %s' % (type(e).__name__, fmt), case=case)
+                    continue
+                if len(back) != 1 or str(back[0]) != str(m0):
+                    acc.fail('value with keyword-looking lines: record lost or changed :: %s' % fmt, case=case)
+                elif dict(back[0].meta) != exp_meta:
+                    acc.fail('metadata value with keyword-looking lines differs after write/read :: %s' % fmt, case=case, got=dict(back[0].meta), expected=exp_meta)
+                acc.outcomes[(fmt, 'keyword value')] += 1
+    acc.sample({'strings': 'all of length <=3 over %r' % alpha, 'places': ['value', 'key', 'title'], 'keyword lines': kw})
     return acc
 
 
